@@ -213,6 +213,14 @@ def _expression(expr):
         return _VAR[name]
 
     if isinstance(expr, blackbirdParser.ArrayIdxLabelContext):
+        if expr.NAME().getText() not in _VAR:
+            token = expr.start
+            raise BlackbirdSyntaxError(
+                "Blackbird SyntaxError (line {}:{}): name '{}' is not defined".format(
+                    token.line, token.column, expr.NAME().getText()
+                )
+            )
+
         inner_expr = _expression(expr.expression())
         return _VAR[expr.NAME().getText()].flatten()[inner_expr]
 
